@@ -102,6 +102,15 @@ PROPS = {
                    ' writes exactly once before the first poll: bounded stand-in'],
         bounded=[CB('config-contracts', 'contracts/config.py', 'gens_config')],
     ),
+    'C05': dict(
+        contract_files=['contracts/updates.py'],
+        level='bounded',
+        trusted_base=COMMON_TRUSTED,
+        uncovered=['deductive proof of Module.announceUpdate: attempted, the exploration (value kinds x error states x timestamps) exceeds the'
+                   ' budget (>15 min, 2300+ paths); the contract is evaluated by the bounded stand-in only',
+                   'interleavings of two updating threads; PersistentMixin.loadParameters writing the cache outside announceUpdate'],
+        bounded=[CB('update-contracts', 'contracts/updates.py', 'gens_updates')],
+    ),
     'C07': dict(
         contract_files=['contracts/protocol.py'],
         level='proof',
